@@ -8,6 +8,21 @@ from ..exceptions import SecurityError
 from ..urls import uri_to_iri
 
 
+def _strip_port(host: str) -> str | None:
+    """Remove the port from a host. An IPv6 literal keeps its brackets.
+    Returns ``None`` if a bracketed literal is malformed.
+    """
+    if host.startswith("["):
+        end = host.find("]")
+
+        if end == -1 or host[end + 1 : end + 2] not in {"", ":"}:
+            return None
+
+        return host[: end + 1]
+
+    return host.partition(":")[0]
+
+
 def host_is_trusted(hostname: str | None, trusted_list: t.Iterable[str]) -> bool:
     """Check if a host matches a list of trusted names.
 
@@ -20,8 +35,13 @@ def host_is_trusted(hostname: str | None, trusted_list: t.Iterable[str]) -> bool
     if not hostname:
         return False
 
+    hostname = _strip_port(hostname)
+
+    if hostname is None:
+        return False
+
     try:
-        hostname = hostname.partition(":")[0].encode("idna").decode("ascii")
+        hostname = hostname.encode("idna").decode("ascii")
     except UnicodeError:
         return False
 
@@ -35,8 +55,13 @@ def host_is_trusted(hostname: str | None, trusted_list: t.Iterable[str]) -> bool
         else:
             suffix_match = False
 
+        ref = _strip_port(ref)
+
+        if ref is None:
+            continue
+
         try:
-            ref = ref.partition(":")[0].encode("idna").decode("ascii")
+            ref = ref.encode("idna").decode("ascii")
         except UnicodeError:
             return False
 
